@@ -354,7 +354,7 @@ pub fn run(ctx: &Ctx) -> (Acc, String, bool) {
     }
     let fixed_pairs = (fixed.len() * fixed.len()) as u64;
     let fixed_triples: u64 = ctx.pick(200, (fixed.len() * fixed.len() * fixed.len()) as u64);
-    let random_total: u64 = ctx.pick(6_000, 400_000);
+    let random_total: u64 = ctx.pick(40_000, 2_500_000);
     let acc = run_cases(ctx, fixed_pairs + fixed_triples + random_total, |i, acc| {
         let mut r = Rng::for_case(seed, i);
         let (progs, exhaustive_orders): (Vec<String>, bool) = if i < fixed_pairs {
